@@ -16,6 +16,7 @@ CLAIMED = {
    note='Trusted: Coq kernel; extraction+driver; harness_plain; 8 MiB stack / 4 GiB address-space limits of the probe workers. Hangs and >=128 MiB allocation failures are counted as resource exhaustion (C07), not crashes. Models tied by correspondence (superscripts vs evaluate).',
    technique='Coq panic-freedom theorems for modelled functions + differential crash probing of the real library',
    ref='DESIGN.md §8 C06'),
+}
 
 NA_REASON = 'not yet built in this revision of /verif (planned: DESIGN.md §8); no check is claimed until its model, theorems and correspondence run exist'
 
